@@ -3,8 +3,6 @@
 #pragma once
 #include "vc_prelude.h"
 
-#define VC_DIGS_FRESH(p, n)  __CPROVER_is_fresh(p, (n) * sizeof(dig_t))
-#define VC_PTR_SAME(p, q)    __CPROVER_pointer_equals(p, q)
 #define VC_CARRY(r, n)       (((vc_wide)(r)) << (RLC_DIG * (n)))
 
 
